@@ -169,6 +169,11 @@ def main(argv=None):
     args = ap.parse_args(argv)
     prop = args.prop
     tier = args.tier if args.tier in ('quick', 'thorough') else 'quick'
+    if os.environ.get('VERIF_COVERAGE'):
+        from harness import covpins
+        covpins.start(os.environ.get('USIM_REPO', '/repo'))
+        import atexit
+        atexit.register(covpins.write, VERIF, prop)
     mod = importlib.import_module('harness.props.' + prop)
     ctx = Ctx(prop, tier, args.seed)
 
